@@ -58,6 +58,20 @@ harness! {
 
 harness! {
     #[kani::unwind(15)]
+    /// the checksum of a 56-bit frame held in a LONGER buffer (the demodulator of source/rtlsdr.rs always
+    /// passes 14 bytes) is the remainder of its first seven bytes only; and a buffer shorter than the
+    /// announced length is an error
+    fn checksum_short_in_long_buffer(s) {
+        let f: [u8; 14] = s.bytes();
+        let got = modes_checksum(&f, 56);
+        vcover!(got == Ok(0));
+        vassert!(got == Ok(syndrome(&f[..7], 7)), "checksum of a short frame in a long buffer is the remainder of the frame alone");
+        vassert!(modes_checksum(&f[..6], 56).is_err() && modes_checksum(&f[..13], 112).is_err(), "a buffer shorter than the announced length is an error");
+    }
+}
+
+harness! {
+    #[kani::unwind(15)]
     /// the syndrome is GF(2)-linear: crc(a ^ b) == crc(a) ^ crc(b)
     fn linear(s) {
         let a: [u8; 14] = s.bytes();
@@ -141,6 +155,45 @@ harness! {
         core::mem::forget(r);
     }
 }
+
+
+macro_rules! gate_cut {
+    ($name:ident, $b0:expr) => {
+        harness! {
+            #[kani::unwind(17)]
+            #[kani::stub(alloc::fmt::format, crate::stubs::fmt_stub)]
+            /// the DF17 CRC gate of Message::from_reader_with_ctx on EVERY 112-bit frame with this first
+            /// byte (type-code byte 0 so that an accepted frame always parses natively; the gate does not
+            /// read it): the path continues past the gate (to the second reader, where the deku model ends
+            /// it: the payload parse behind it is what makes whole-frame harnesses cost 50 min) exactly when
+            /// the reference remainder is zero.  Natively (replay, real deku, no cut) the same body checks
+            /// accepted-as-DF17 <=> remainder zero on the whole decode.
+            fn $name(s) {
+                let mut f: [u8; 14] = s.bytes();
+                f[0] = $b0;
+                f[4] = 0;
+                let syn = syndrome(&f, 14);
+                #[cfg(kani)]
+                unsafe {
+                    deku::verif_hooks::READERS = 0;
+                    deku::verif_hooks::CUT_AT = 2;
+                    deku::verif_hooks::CUT_EXPECTED = syn == 0;
+                }
+                vcover!(syn == 0);
+                vcover!(syn != 0);
+                let r = Message::try_from(&f[..]);
+                // under Kani only paths on which the gate rejected get here
+                #[cfg(kani)]
+                vassert!(syn != 0, "a DF17 frame with zero remainder passes the CRC gate");
+                vassert!(is_df17(&r) == (syn == 0), "DF17 accepted iff remainder is zero");
+                core::mem::forget(r);
+            }
+        }
+    };
+}
+gate_cut!(gate_cut_df17_ca5, 0x8d);
+gate_cut!(gate_cut_df17_ca0, 0x88);
+gate_cut!(gate_cut_df17_ca7, 0x8f);
 
 harness! {
     #[kani::unwind(17)]
@@ -309,6 +362,6 @@ ap_long!(ap_df16, 0x80, false);
 ap_long!(ap_df20, 0xa0, true);
 ap_long!(ap_df21, 0xa8, true);
 
-registry!(icao_parity_is_ctx, table_entries, table_step, checksum_long, checksum_short, linear, err_single, err_double, err_burst,
-          gate_df17, gate_df17_all_ca, e2e_corruption, overlay_checksum,
+registry!(icao_parity_is_ctx, table_entries, table_step, checksum_long, checksum_short, checksum_short_in_long_buffer, linear, err_single, err_double, err_burst,
+          gate_df17, gate_cut_df17_ca5, gate_cut_df17_ca0, gate_cut_df17_ca7, gate_df17_all_ca, e2e_corruption, overlay_checksum,
           ap_df0, ap_df4, ap_df5, ap_df4_fs5, ap_df5_fs7, ap_df16, ap_df20, ap_df21);
